@@ -23,8 +23,7 @@ POLICIES = {'none': None, 'discard': {'P': 'discard'}, 'overwrite': {'P': 'overw
 
 
 def store_canon(flavour):
-    """whole-store canonical form keyed by (GraphID, NodeID); edge attribute 'contraction' (a networkx artefact of
-    node contraction) is not part of the documented content and is dropped"""
+    """whole-store canonical form keyed by (GraphID, NodeID)"""
     nodes, edges = [], []
     if flavour == 'shared':
         graphs = [world.shared_store().graphs]
@@ -35,7 +34,7 @@ def store_canon(flavour):
         for n, d in g.nodes(data=True):
             nodes.append((key[n], props_canon(d)))
         for x, y, d in g.edges(data=True):
-            edges.append((tuple(sorted((key[x], key[y]))), props_canon({k: v for k, v in d.items() if k != 'contraction'})))
+            edges.append((tuple(sorted((key[x], key[y]))), props_canon(d)))
     return tuple(sorted(nodes, key=repr)), tuple(sorted(edges, key=repr))
 
 
@@ -298,9 +297,7 @@ def _norm_np(r):
 
 def _norm_lp(r):
     kind, props = r
-    props = dict(props)
-    props.pop('contraction', None)
-    return (kind, props)
+    return (kind, dict(props))
 
 
 def _diff(want, got):
@@ -328,8 +325,7 @@ def run(report):
               'delete_graph:ok', 'unset:either'):
         report.require(g['outcomes'].get(k, 0) > 0, f'outcome class {k}')
     report.assumptions += [
-        'add_link is offered only for pairs without an edge (no multigraphs); attribute "contraction" that networkx puts on '
-        'edges during node contraction is not judged',
+        'add_link is offered only for pairs without an edge (no multigraphs)',
         'unsetting a property that is not set, and whole-graph update / listing on a graph without nodes: raise-or-noop is '
         'unspecified (state must stay unchanged, which the snapshot comparison enforces)',
         'merge policies are offered only for properties present on both nodes; keys present only on the merged-in node are unspecified',
